@@ -2,7 +2,7 @@
     Model: Model/Blocks.v — the token game of block-structured programs (sequence, parallel,
     exclusive, inclusive with default, do-while loop, task with conditional outgoing flows, embedded
     sub-process, end events inside branches), variables written by the answers steering the conditions. *)
-From BV Require Import Model.Blocks Model.Cohort Model.FlowLeave Proofs.BlocksProofs Proofs.TokenGameProofs Proofs.FlowLeaveProofs.
+From BV Require Import Model.Blocks Model.Cohort Model.FlowLeave Model.SmallStep Proofs.BlocksProofs Proofs.TokenGameProofs Proofs.FlowLeaveProofs Proofs.SmallStepProofs.
 From Coq Require Import Permutation.
 Open Scope nat_scope.
 
@@ -43,6 +43,28 @@ Theorem C01_only_answers_move_tokens : forall e r t, wfr r -> ~ In t (pending r)
   answer e r t = r /\ ends_answer e r t = [].
 Proof. intros e r t W N. split; [apply answer_not_pending|apply ends_answer_not_pending]; auto. Qed.
 Print Assumptions C01_only_answers_move_tokens.
+
+(* EVERY GOROUTINE SCHEDULE — Model/SmallStep.v moves one token past one node at a time, tokens of different branches
+   in any interleaving; the game above moves all tokens at once, as far as they get. Nothing is lost: two different
+   moves can always be completed to a common state (diamond), so whatever the schedule, once the tokens rest they are
+   exactly where [start] / [answer] put them (the data does not change while tokens move: variables are written by
+   task answers, and the driver answers when the instance is at rest) *)
+Theorem C01_moves_commute : forall e s s1 s2, sstep e s s1 -> sstep e s s2 ->
+  s1 = s2 \/ exists s3, sstep e s1 s3 /\ sstep e s2 s3.
+Proof. intros e s s1 s2 A B. exact (diamond e s s1 A s2 B). Qed.
+Print Assumptions C01_moves_commute.
+Theorem C01_every_schedule_same_state_after_start : forall e b q, nospin (start e b) ->
+  ssteps e (SAt b) q -> quiescent e q -> q = emb (start e b).
+Proof. exact start_schedule_independent. Qed.
+Print Assumptions C01_every_schedule_same_state_after_start.
+Theorem C01_every_schedule_same_state_after_an_answer : forall e r t q, wfr r -> nospin (answer e r t) ->
+  ssteps e (sanswer (emb r) t) q -> quiescent e q -> q = emb (answer e r t).
+Proof. exact answer_schedule_independent. Qed.
+Print Assumptions C01_every_schedule_same_state_after_an_answer.
+Theorem C01_tokens_can_get_there_and_rest : forall e b, nospin (start e b) ->
+  ssteps e (SAt b) (emb (start e b)) /\ quiescent e (emb (start e b)).
+Proof. intros e b N. split; [apply start_reachable, N|apply emb_rests; [apply wfr_start|exact N]]. Qed.
+Print Assumptions C01_tokens_can_get_there_and_rest.
 
 (* sub-processes are transparent to the token game (C12) *)
 Theorem C01_subprocess_transparent : forall b e ops, endfree b = true -> behaviour (flatten b) e ops = behaviour b e ops.
